@@ -24,6 +24,7 @@ import argparse
 import hashlib
 import importlib
 import itertools
+import contextlib
 import json
 import multiprocessing as mp
 import os
@@ -93,23 +94,126 @@ def _innermost_phylib_frame(tb):
     return best
 
 
+# ---------------------------------------------------------------------------------------------
+# Ambient process state.  Callers legitimately run with floating-point errors raised, warnings
+# turned into errors, verbose logging or other NumPy print options; none of this may change what
+# the code under test returns.  One case in three makes every call into the code under test (they
+# all go through must_return / must_raise) under such a state.  The choice is a function of the
+# case (its hash) and is stored in the case when it fails, so that replays are exact.
+# ---------------------------------------------------------------------------------------------
+AMBIENT = ()
+ALL_AMBIENT = ('fp', 'log', 'print', 'warn')
+
+
+def ambient_for(mod, case):
+    if isinstance(case, dict) and 'ambient' in case:
+        return tuple(case['ambient'])
+    basis = case.get('init') if isinstance(case, dict) and 'trace' in case else case
+    if case_hash64(basis) % 3:
+        return ()
+    excluded = getattr(mod, 'AMBIENT_EXCLUDE', {})
+    return tuple(a for a in ALL_AMBIENT if a not in excluded)
+
+
+def set_ambient(mod, case):
+    global AMBIENT
+    AMBIENT = ambient_for(mod, case)
+    return AMBIENT
+
+
+@contextlib.contextmanager
+def without(*kinds):
+    """Temporarily drop some ambient kinds (for calls the unchanged code only supports under the
+    default state; each use is explained in DESIGN section 11)."""
+    global AMBIENT
+    old = AMBIENT
+    AMBIENT = tuple(a for a in old if a not in kinds)
+    try:
+        yield
+    finally:
+        AMBIENT = old
+
+
+@contextlib.contextmanager
+def ambient_ctx():
+    a = AMBIENT
+    if not a:
+        yield
+        return
+    import logging
+    import warnings
+    with contextlib.ExitStack() as stack:
+        if 'fp' in a:
+            stack.enter_context(np.errstate(divide='raise', invalid='raise', over='raise'))
+        if 'print' in a:
+            stack.enter_context(np.printoptions(threshold=3, edgeitems=1, precision=1))
+        if 'warn' in a:
+            stack.enter_context(warnings.catch_warnings())
+            warnings.simplefilter('error')
+        if 'log' in a:
+            lg = logging.getLogger('phylib')
+            old = lg.level
+            lg.setLevel(5)
+            stack.callback(lg.setLevel, old)
+        yield
+
+
 def must_return(what, fn, *args, **kwargs):
     """Call code under test where the property promises a value: any exception is a violation."""
     try:
-        return fn(*args, **kwargs)
+        with ambient_ctx():
+            return fn(*args, **kwargs)
     except (Violation, Reject, HarnessError):
         raise
     except Exception as e:
         fr = _innermost_phylib_frame(e.__traceback__)
         where = '%s:%s' % fr if fr else 'outside-phylib'
-        raise Violation('%s raised %s: %s' % (what, type(e).__name__, str(e)[:200]),
+        amb = (' [ambient state: %s]' % '+'.join(AMBIENT)) if AMBIENT else ''
+        raise Violation('%s raised %s: %s%s' % (what, type(e).__name__, str(e)[:200], amb),
                         key='raised:%s@%s' % (type(e).__name__, where))
+
+
+def scribble(obj):
+    """Edit a returned result in place, as a caller that owns it may do (rescale, sort, mask).
+    Returns True if anything was edited.  Only used on results of computing accessors."""
+    done = False
+    if isinstance(obj, np.ndarray):
+        if obj.flags.writeable and obj.size:
+            if obj.dtype.kind == 'f':
+                obj[...] = obj[::-1] * -3.5 + 11
+                obj.flat[0] = np.nan
+            elif obj.dtype.kind in 'iu':
+                obj[...] = (obj[::-1] + 1)
+            elif obj.dtype.kind == 'b':
+                obj[...] = ~obj
+            done = True
+    elif isinstance(obj, (tuple, list)):
+        for x in obj:
+            done = scribble(x) or done
+    elif isinstance(obj, dict):
+        for x in obj.values():
+            done = scribble(x) or done
+    return done
+
+
+def twice(what, fn, compare):
+    """Call an accessor, compare, edit the result in place, call again and compare again: what an
+    accessor returns must not depend on what the caller did with an earlier result."""
+    out = must_return(what, fn)
+    compare(out, what)
+    if scribble(out):
+        again = what + ' (second call, after the first result was edited in place by the caller)'
+        out2 = must_return(again, fn)
+        compare(out2, again)
+        return out2
+    return out
 
 
 def must_raise(what, exc_types, fn, *args, **kwargs):
     """Call code under test where the property promises a rejection."""
     try:
-        out = fn(*args, **kwargs)
+        with ambient_ctx():
+            out = fn(*args, **kwargs)
     except exc_types:
         return
     except (Violation, Reject, HarnessError):
@@ -244,6 +348,8 @@ class RunState(object):
             case = v.case
         if self.in_hypothesis and self.first_failure_t is None:
             self.first_failure_t = time.time()
+        if isinstance(case, dict) and 'ambient' not in case:
+            case = dict(case, ambient=list(AMBIENT))    # replays use exactly this state
         c = canon(case)
         prev = self.failures.get(v.key)
         # Hypothesis only visits smaller failing examples while shrinking, so the last one seen is
@@ -262,6 +368,8 @@ class RunState(object):
         except Exception as e:
             self.note_harness(case, e)
             raise
+        if AMBIENT:
+            labels = list(labels) + ['ambient-state:' + '+'.join(AMBIENT)]
         for lab in labels:
             self.labels[lab] = self.labels.get(lab, 0) + 1
         if nt:
@@ -286,6 +394,7 @@ class RunState(object):
         self.current = case
         if self.watchdog_fired():
             return
+        set_ambient(self.mod, case)
         try:
             info = self.mod.check(case)
         except Reject:
@@ -349,6 +458,7 @@ def make_trace_machine_base():
         def _ensure(self):
             if self.interp is None:
                 RUN.current = self.case()
+                set_ambient(self.MOD, self.case())
                 try:
                     self.interp = self.MOD.new_interp(self.case())
                 except Violation as v:
@@ -407,6 +517,7 @@ def make_trace_machine_base():
 
 def replay_trace(mod, case):
     """check(case) for trace cases: run the saved trace through the same interpreter."""
+    set_ambient(mod, case)
     interp = mod.new_interp(case)
     try:
         for op in case['trace']:
@@ -531,6 +642,7 @@ def _run_saved(mod, path):
     """Run a saved case.  Returns None if it passes, else the Violation."""
     d = json.loads(Path(path).read_text())
     try:
+        set_ambient(mod, d['case'])
         mod.check(d['case'])
     except Reject:
         return None
@@ -664,6 +776,7 @@ def main(argv=None):
         f = fails[key]
         try:
             try:
+                set_ambient(mod, f['case'])
                 mod.check(f['case'])
                 v = None
             except Reject:
